@@ -230,7 +230,54 @@ fn corresponding_dbr(cts: &[Tk]) -> Option<Vec<Tk>> {
     Some(out)
 }
 
+/// The Lean theorems about the lexers are proved for ANY character classification satisfying a short list of
+/// hypotheses (DESIGN §3.4); here those hypotheses are checked against Rust's `char` methods for ALL code points.
+pub fn check_char_classes(ctx: &mut Ctx) {
+    let mut n = 0u64;
+    let mut bad: Vec<String> = Vec::new();
+    for cp in 0..=0x10FFFFu32 {
+        let c = match char::from_u32(cp) {
+            Some(c) => c,
+            None => continue,
+        };
+        n += 1;
+        let (ws, al, an, dg) = (c.is_whitespace(), c.is_alphabetic(), c.is_alphanumeric(), c.to_digit(16));
+        let expect_dg = match c {
+            '0'..='9' => Some(cp - 48),
+            'A'..='F' => Some(cp - 55),
+            'a'..='f' => Some(cp - 87),
+            _ => None,
+        };
+        if dg != expect_dg {
+            bad.push(format!("to_digit(16) of U+{:04X}", cp));
+        }
+        if ws && (al || an || dg.is_some()) {
+            bad.push(format!("whitespace U+{:04X} is alphabetic/alphanumeric/hex", cp));
+        }
+        if al && !an {
+            bad.push(format!("alphabetic U+{:04X} is not alphanumeric", cp));
+        }
+        if ('a'..='z').contains(&c) && !al {
+            bad.push(format!("lower-case letter U+{:04X} is not alphabetic", cp));
+        }
+        if matches!(c, '(' | ')' | '.' | '\\') && (ws || al || an || dg.is_some()) {
+            bad.push(format!("delimiter U+{:04X} misclassified", cp));
+        }
+        if c == 'λ' && (ws || dg.is_some()) {
+            bad.push("lambda glyph misclassified".into());
+        }
+        if c == ' ' && !ws {
+            bad.push("space is not whitespace".into());
+        }
+    }
+    ctx.add("char_class_code_points_checked", n);
+    for b in bad.iter().take(5) {
+        ctx.fail(&format!("character-class hypothesis of the lexer theorems does not hold: {}", b), &[]);
+    }
+}
+
 pub fn c09(ctx: &mut Ctx) {
+    check_char_classes(ctx);
     let (ld, lc) = if ctx.thorough { (8, 7) } else { (6, 5) };
     // ---------------- De Bruijn
     let alpha_d = vec![Tk::Lam(None), Tk::LP, Tk::RP, Tk::Idx(1), Tk::Idx(2), Tk::Idx(11)];
@@ -729,6 +776,7 @@ fn idx_range(t: &Term) -> Option<(usize, usize)> {
 }
 
 pub fn c10(ctx: &mut Ctx) {
+    check_char_classes(ctx);
     let uni = printer_universe(ctx, false);
     let lam = LAMBDA as u32;
     ctx.add(if lam == 955 { "build_lambda_glyph" } else { "build_backslash_glyph" }, 1);
@@ -763,6 +811,7 @@ pub fn c10(ctx: &mut Ctx) {
 }
 
 pub fn c11(ctx: &mut Ctx) {
+    check_char_classes(ctx);
     let uni = printer_universe(ctx, true);
     let lam = LAMBDA as u32;
     ctx.add(if lam == 955 { "build_lambda_glyph" } else { "build_backslash_glyph" }, 1);
